@@ -19,7 +19,7 @@ V = Path("/verif")
 ROOT = Path(f"/tmp/mx{os.getpid()}")
 # checks other than the primary that are known to see a seed (second line of defence), from the validation batches
 EXTRA = {"C16_m3": ["C13"], "C02_m4": ["C07"], "C02_m3": ["C14"], "C09_m3": ["C14"], "C12_m4": ["C05"], "C01_m3": ["C08"],
-         "C01_m4": ["C08"], "C04_m4": ["C14"], "C13_m4": ["C05"], "C16_m4": ["C13"], "C03_m5": ["C14"]}
+         "C01_m4": ["C08"], "C04_m4": ["C14"], "C13_m4": ["C05"], "C16_m4": ["C13"], "C03_m5": ["C14"], "C01_m6": ["C07", "C05"], "C02_m6": ["C08", "C14"]}
 
 
 def sh(*a, **kw):
